@@ -373,6 +373,22 @@ def register_pandas():
         # Float64 arrays with a missing value both convert to float64 with nan
         return [normalize_token(np.asarray(arr)), normalize_token(arr.dtype)]
 
+    @normalize_token.register(
+        (pd.arrays.IntegerArray, pd.arrays.FloatingArray, pd.arrays.BooleanArray)
+    )
+    def normalize_masked_extension_array(arr):
+        # np.asarray of a nullable array that holds a missing value is float64
+        # (object for booleans): integers beyond 2**53 lose their last digits.
+        # Hash the values in the array's own NumPy dtype, and the mask. What
+        # is stored underneath a missing value is not part of the array.
+        dtype = arr.dtype.numpy_dtype
+        data = arr.to_numpy(dtype=dtype, na_value=dtype.type(0))
+        return [
+            normalize_token(data),
+            normalize_token(arr.isna()),
+            normalize_token(arr.dtype),
+        ]
+
     # Dtypes
     @normalize_token.register(pd.api.types.CategoricalDtype)
     def normalize_categorical_dtype(dtype):
